@@ -2,6 +2,8 @@ package main
 
 import (
 	"fmt"
+	"reflect"
+	"unsafe"
 	"strconv"
 	"strings"
 	"sync"
@@ -340,7 +342,74 @@ func canon(f *slicez.FlexSlice[int]) string {
 		b.WriteString(strconv.Itoa(id))
 		b.WriteByte(',')
 	}
+	hiddenState(f, names, &b)
 	return b.String()
+}
+
+// hiddenState appends every field of FlexSlice other than Values to the canonical key. The unchanged
+// type has none, but a change that adds private state (a reserve in front of the elements, a cached
+// offset) must not have states merged that differ in it: merged states have to have the same futures.
+// Slices of the element type contribute len, cap, their contents over the whole capacity (renamed
+// like the elements) and — found by writing a sentinel through Values — which of their positions
+// share memory with which position of Values' array. Scalars contribute their value, anything else
+// whether it is nil.
+func hiddenState(f *slicez.FlexSlice[int], names map[int]int, b *strings.Builder) {
+	rv := reflect.ValueOf(f).Elem()
+	if rv.NumField() == 1 {
+		return
+	}
+	const sentinel = -987654321
+	full := f.Values[:cap(f.Values)]
+	for i := 0; i < rv.NumField(); i++ {
+		ft := rv.Type().Field(i)
+		if ft.Name == "Values" {
+			continue
+		}
+		fv := rv.Field(i)
+		fv = reflect.NewAt(fv.Type(), unsafe.Pointer(fv.UnsafeAddr())).Elem()
+		b.WriteByte('|')
+		b.WriteString(ft.Name)
+		b.WriteByte('=')
+		switch {
+		case fv.Type() == reflect.TypeOf([]int(nil)):
+			h := fv.Interface().([]int)
+			fmt.Fprintf(b, "%d/%d/", len(h), cap(h))
+			hf := h[:cap(h)]
+			for _, v := range hf {
+				id, ok := names[v]
+				if !ok {
+					id = len(names)
+					names[v] = id
+				}
+				fmt.Fprintf(b, "%d,", id)
+			}
+			// aliasing: position j of Values' array is position k of the hidden slice's array
+			for j := range full {
+				old := full[j]
+				full[j] = sentinel
+				for k := range hf {
+					if hf[k] == sentinel {
+						fmt.Fprintf(b, "a%d@%d,", j, k)
+						break
+					}
+				}
+				full[j] = old
+			}
+		case fv.CanInt():
+			fmt.Fprintf(b, "%d", fv.Int())
+		case fv.CanUint():
+			fmt.Fprintf(b, "%d", fv.Uint())
+		case fv.Kind() == reflect.Bool:
+			fmt.Fprintf(b, "%v", fv.Bool())
+		case fv.Kind() == reflect.Pointer || fv.Kind() == reflect.Map || fv.Kind() == reflect.Slice || fv.Kind() == reflect.Func || fv.Kind() == reflect.Interface || fv.Kind() == reflect.Chan:
+			fmt.Fprintf(b, "nil:%v", fv.IsNil())
+			if fv.Kind() == reflect.Slice || fv.Kind() == reflect.Map {
+				fmt.Fprintf(b, "/%d", fv.Len())
+			}
+		default:
+			b.WriteString("?")
+		}
+	}
 }
 
 type fstate struct {
